@@ -52,6 +52,9 @@ def queries(tier, seed=0):
                         continue
                     qs.append(dict(shape=sh.to_json(), kind=kind, name=nm, os=None, target=[1, 0],
                                    b_variant=var, b_pos=pos))
+    for d in list(qs):
+        if d['kind'] in ('exploit', 'privesc') and d['b_pos'] in (0, 3) and d['b_variant'] in ('object', 'content'):
+            qs.append(dict(d, param=True))
     for name in ('tiny-gen', 'small-gen'):
         qs.append(dict(kind='bench_params', name=name, no_reach=True))
     return qs
@@ -97,9 +100,9 @@ def make_b(w, q):
     return wb.scenario
 
 
-def b_ops(scenario, full=True):
+def b_ops(scenario, full=True, param=False):
     """construct / reset / step of the second environment (its draws are its own)"""
-    envb = m_env.NASimEnv(scenario, fully_obs=False, flat_obs=False)
+    envb = m_env.NASimEnv(scenario, fully_obs=False, flat_obs=False, flat_actions=not param)
     envb.reset()
     acts = [a for a in envb.action_space.actions if a.is_exploit()] or list(envb.action_space.actions)
     saved = npmodel.random
@@ -126,19 +129,19 @@ def b_ops(scenario, full=True):
     return envb
 
 
-def run_a(src, q, w, A, scripted, before=None):
+def run_a(src, q, w, A, scripted, before=None, param=False):
     """the schedule of environment A; `before[i]` is executed before A's i-th operation"""
     out = {}
     hook = (lambda i: before(i)) if before else (lambda i: None)
     hook(0)
-    env = m_env.NASimEnv(w.scenario, fully_obs=False, flat_obs=True)
+    env = m_env.NASimEnv(w.scenario, fully_obs=False, flat_obs=not param, flat_actions=not param)
     o0, _ = env.reset()
     out['reset_obs'] = [sx.znum(c) for c in (o0.cells() if isinstance(o0, npmodel.SArray) else o0)]
     hook(1)
     pre = scen.symbolic_state(w, env.current_state)
     hook(2)
     stubs.rewind_draws(scripted)
-    o, reward, done, lim, info = env.step(dyn.encode(env, w, A, True))
+    o, reward, done, lim, info = env.step(dyn.encode(env, w, A, not param))
     out['obs'] = [sx.znum(c) for c in (o.cells() if isinstance(o, npmodel.SArray) else o)]
     out['reward'] = spec.real(sx.znum(reward))
     out['done'] = sx.zbool(done)
@@ -161,6 +164,11 @@ def run_a(src, q, w, A, scripted, before=None):
     for k, v in aux.items():
         flat['aux.%s' % k] = z3.If(sx.zbool(v), z3.RealVal(1), z3.RealVal(0))
     out['readable'] = flat
+    # what A handed out earlier must still read the same after everything else happened
+    cells_ = lambda x: [sx.znum(c) for c in (x.cells() if isinstance(x, npmodel.SArray) else x.flatten())]
+    out['late_returned_obs'] = cells_(o)
+    out['late_last_obs'] = cells_(env.last_obs.tensor)
+    out['late_reset_obs'] = cells_(o0)
     return out, pre, env
 
 
@@ -184,7 +192,7 @@ def run(src, q):
     scripted = stubs.ScriptedRand(draws, default=0.0)
     with scripted:
         with stubs.sut():
-            alone, pre, env_a = run_a(src, q, w, A, scripted)
+            alone, pre, env_a = run_a(src, q, w, A, scripted, param=q.get('param', False))
         r.pre = pre
         r.st = scen.zstatus(pre)
         if src.symbolic:
@@ -206,11 +214,11 @@ def run(src, q):
 
         def before(i):
             if i == pos:
-                state['b'] = b_ops(scb, full=(q['b_variant'] != 'object'))
+                state['b'] = b_ops(scb, full=(q['b_variant'] != 'object'), param=q.get('param', False))
         r.inter_exc = None
         try:
             with stubs.sut():
-                inter, _pre2, env_a2 = run_a(src, q, w, A, scripted, before=before)
+                inter, _pre2, env_a2 = run_a(src, q, w, A, scripted, before=before, param=q.get('param', False))
             r.inter = inter
         except stubs.SutException as e:
             r.inter_exc = e.exc
@@ -235,6 +243,16 @@ def run_bench(src, q):
     saved_fn = m_sc.generate_scenario
     saved_params = copy.deepcopy(AVAIL_GEN_BENCHMARKS[name])
     seed = src.int('bench_seed', 0, None)
+    import numpy as _np
+    seeds_seen = []
+    saved_seed = _np.random.seed
+    _np.random.seed = lambda *a, **k: seeds_seen.append((a, k))
+    try:
+        with stubs.sut():
+            m_sc.make_benchmark_scenario('tiny', seed=None)        # a static benchmark, unseeded
+    finally:
+        _np.random.seed = saved_seed
+    r.static_reseeds = list(seeds_seen)
     try:
         m_sc.generate_scenario = recorder
         with stubs.sut():
@@ -277,7 +295,8 @@ def obligations(r):
         return [('unseeded_build_alone_uses_registered_parameters', _kw_equal(c[0][1], want_unseeded)),
                 ('seeded_build_passes_its_seed', _kw_equal(c[1][1], want_seeded)),
                 ('unseeded_build_after_a_seeded_one_is_the_same_request', _kw_equal(c[2][1], c[0][1])),
-                ('seeded_build_repeats', _kw_equal(c[3][1], c[1][1]))]
+                ('seeded_build_repeats', _kw_equal(c[3][1], c[1][1])),
+                ('unseeded_static_benchmark_leaves_global_generator_alone', z3.BoolVal(len(r.static_reseeds) == 0))]
     if r.inter is None:
         return [('interleaved_run_raises_like_alone_run', z3.BoolVal(False))]
     a, b = r.alone, r.inter
@@ -295,6 +314,8 @@ def obligations(r):
                 if set(a['info']) == set(b['info']) else z3.BoolVal(False)))
     obl.append(('next_state_independent', common.rows_equal(a['ns'], b['ns'])
                 if len(a['ns']) == len(b['ns']) and len(a['ns'][0]) == len(b['ns'][0]) else z3.BoolVal(False)))
+    for k_ in ('late_returned_obs', 'late_last_obs', 'late_reset_obs'):
+        obl.append((k_ + '_independent', eql(a[k_], b[k_])))
     obl.append(('decoding_independent', z3.And([a['readable'][k] == b['readable'][k] for k in a['readable']])
                 if set(a['readable']) == set(b['readable']) else z3.BoolVal(False)))
     return obl
